@@ -278,14 +278,32 @@ def special_docs(rng):
         words = " ".join("w%d" % i for i in range(n // 4))[:n]
         out.append((head + "STRT.M 1.0 : s\nSTOP.M 2.0 : s\nSTEP.M 1.0 : s\nNULL. -999.25 : n\nLOC.M1250 " + words + " : location\n~P\nREM.X " + words +
                     " : remark\n" + tail + "1.0 5\n2.0 6\n", "long-item"))
-    for k in range(6):
-        a = round(rng.uniform(100, 4000), rng.choice([6, 7, 9]))
-        step = round(rng.uniform(0.01, 2), rng.choice([6, 8]))
+    for k in range(16):
+        if k % 2:
+            a = round(rng.uniform(100, 4000), rng.choice([6, 7, 9]))
+            step = round(rng.uniform(0.01, 2), rng.choice([6, 8]))
+        else:
+            # the fifth decimal of the difference of two samples is not the difference of their fifth decimals
+            a = round(rng.uniform(100, 4000), 5) + 4e-6
+            step = round(rng.uniform(0.01, 2), 5) + 4e-6
         idx = [a + i * step for i in range(4)]
-        stop = rng.choice(["%.4f" % idx[-1], "%.2f" % idx[-1], "%.6f" % (idx[-1] + step), repr(idx[-1])])
+        stop = rng.choice(["%.4f" % idx[-1], "%.2f" % idx[-1], "%.6f" % (idx[-1] + step), repr(idx[-1]),
+                           "%.6f" % (idx[-1] * (1 + 5e-6)), "%.6f" % (idx[-1] + 1.9e-5), "%.7f" % (idx[-1] - 7e-6)])
         rows = "".join("%r %d\n" % (x, i) for i, x in enumerate(idx))
         out.append((head + "STRT.FT %r : s\nSTOP.FT %s : s\nSTEP.FT %r : s\nNULL. -999.25 : n\n" % (idx[0], stop, step) + "~C\nDEPT.FT : d\nA. : a\n~A\n" + rows,
                     "fine-index"))
+    for k in range(8):
+        # small depths, a STOP that misses the last index value by about one part in 10^5 (just below / above a relative tolerance
+        # of 1e-5), index samples with six decimals that round in the other direction
+        last5 = round(rng.uniform(1.0, 3.0), 5)
+        sgn = rng.choice([1, -1])
+        last = last5 + sgn * 4e-6
+        stop = last + sgn * (1e-5 * last - rng.choice([1e-6, 2e-6, 3e-6]))
+        step = round(rng.uniform(0.1, 0.3), 5)
+        idx = [last - (3 - i) * step for i in range(4)]
+        rows = "".join("%.6f %d\n" % (x, i) for i, x in enumerate(idx))
+        out.append((head + "STRT.M %.6f : s\nSTOP.M %.6f : s\nSTEP.M %.5f : s\nNULL. -999.25 : n\n" % (idx[0], stop, step) + "~C\nDEPT.M : d\nA. : a\n~A\n" + rows,
+                    "stop-near-tolerance"))
     for v in ("2e-05", "1.5E-7", "1e16", "1E+20", "-4.25e-09", "0.00002"):
         out.append((head + "STRT.M 1.0 : s\nSTOP.M 2.0 : s\nSTEP.M 1.0 : s\nNULL. -999.25 : n\nRMF.OHMM %s : r\n~P\nEPS.OHMM %s : e\n" % (v, v) + tail + "1.0 5\n2.0 6\n",
                     "exponent-value"))
